@@ -15,7 +15,10 @@ Hostile == {"garbage", "bad_version", "bad_magic", "oversized", "datalen_short",
             "hdr_boundary", "ann_negative", "trunc_reset", "reset_idle", "stall_partial",
             \* a streamed result is requested and then abandoned (the connection is dropped; stream lifetime and linger are
             \* configured in the configurations that have a communication timeout)
-            "stream_abandon"}
+            "stream_abandon",
+            \* a complete, valid message (the CONNECT, or a call) followed at once by a reset: the daemon still reads the message
+            \* and only finds out when it answers
+            "valid_then_reset"}
 Steps == [a : {"attack"}, who : {1, 2}, item : Hostile, pre : BOOLEAN]
          \cup [a : {"wcall", "aclose1", "aclose2", "fresh"}, who : {0}, item : {""}, pre : {FALSE}]
 VARIABLE h
